@@ -250,11 +250,15 @@ def ff_run(case):
             status = ("exc",)
         else:
             status = ("res", fut.result())
-        return [r.log for r in recs], status, raised, err
+        return [list(r.log) for r in recs], status, raised, err
     finally:
         if loop is not None:
-            if inner is not None and inner.done() and not inner.cancelled():
-                inner.exception()
+            if inner is not None:
+                if not fut.done():
+                    fut.cancel()
+                    step(loop, 3)
+                if inner.done() and not inner.cancelled():
+                    inner.exception()
             loop.close()
 
 
@@ -309,16 +313,21 @@ def ff_judge(case):
     return problems, nontrivial, outcome
 
 
+def ff_bounds(tier):
+    """(max observers, depth for synchronous delivery, depth with explicit loop steps, #result values).
+    With n observers a history has at most n subscribes + n disposes + 1 resolution, so depth 2n+1 exhausts the
+    synchronous space; explicit steps add up to one step after each of those events."""
+    return (2, 5, 8, 2) if tier == "quick" else (3, 7, 10, 3)
+
+
 def ff_cases(tier, seed):
     b = 1 + 10 * (seed % 4)
-    values = (b, None) if tier == "quick" else (b, None, 0)
-    depth = 4 if tier == "quick" else 5
+    nobs, d_sync, d_manual, nvals = ff_bounds(tier)
+    values = (b, None, 0)[:nvals]
     for entry in ("from_future", "start_async"):
         for kind, stepping in (("concurrent", "sync"), ("asyncio", "manual"), ("asyncio", "drain"), ("task", "drain")):
-            d = depth + 1 if stepping == "manual" else depth
-            if entry == "start_async" and tier == "quick":
-                d -= 1
-            for h in ff_histories(d, stepping == "manual", 2, values):
+            d = d_manual if stepping == "manual" else d_sync
+            for h in ff_histories(d, stepping == "manual", nobs, values):
                 yield {"part": "from_future", "entry": entry, "kind": kind, "stepping": stepping, "history": [list(e) for e in h]}
 
 
@@ -394,7 +403,7 @@ def tf_judge(case):
     err = FErr("sequence failed")
     exp = expected_outcome(vals, term)
     problems = []
-    base = f"to_future|{case['api']}|ctor={case['ctor']}"
+    base = "to_future"  # api / constructor / source kind are in the case, not in the signature (one defect = one signature)
     loop = asyncio.new_event_loop()
     asyncio.set_event_loop(loop)
     try:
@@ -435,7 +444,7 @@ def tf_judge(case):
             observed = (act, sorted(probes.items()))
         if fut.done() and not fut.cancelled():
             fut.exception()
-        return problems, True, (base, case["seq"], repr(observed))
+        return problems, True, ("to_future", case["api"], case["ctor"], case["seq"], repr(observed))
     finally:
         asyncio.set_event_loop(None)
         loop.close()
@@ -477,11 +486,12 @@ def aw_judge(case):
 
 
 class _SimThreads:
-    """Simulated threads for run(): start() queues the body; it runs when the caller blocks on the latch
-    ('lazy'), or immediately ('eager')."""
+    """Simulated threads for run(): start() queues the body; it runs when the caller blocks on the latch.
+    (Running the body inside start() is not possible: EventLoopScheduler starts its thread while holding
+    its non-reentrant condition lock.)"""
 
-    def __init__(self, eager):
-        self.eager, self.pending, self.started = eager, [], 0
+    def __init__(self):
+        self.pending, self.started = [], 0
 
     def factory(self, target, *a, **kw):
         sim = self
@@ -492,10 +502,7 @@ class _SimThreads:
 
             def start(self_inner):
                 sim.started += 1
-                if sim.eager:
-                    target()
-                else:
-                    sim.pending.append(target)
+                sim.pending.append(target)
 
             def join(self_inner, timeout=None):
                 return None
@@ -538,7 +545,7 @@ def run_judge(case):
     err = FErr("sequence failed")
     exp = expected_outcome(vals, term)
     mode = case["sched"]
-    sim = _SimThreads(eager=mode.endswith("eager")) if "sim" in mode else None
+    sim = _SimThreads() if "sim" in mode else None
     mod, real, _ = _patched_run_module(sim)
     if real is None:
         return [("run|harness", "reactivex.run has no `threading` attribute to guard: harness needs updating")], False, ("run", "unguarded")
@@ -563,7 +570,7 @@ def run_judge(case):
         problems = []
         m = outcome_mismatch(exp, act)
         if m:
-            problems.append((f"run|{mode}|{case['seq'].split('@')[0]}|{m}", f"expected {exp}, run() gave {act}"))
+            problems.append((f"run|{case['seq'].split('@')[0]}|{m}", f"scheduler {mode}: expected {exp}, run() gave {act}"))
         if sim is not None and sim.started == 0:
             problems.append((f"run|{mode}|harness-no-thread", "the simulated thread factory was never used: harness assumption broken"))
         return problems, True, ("run", mode, case["seq"], repr(act))
@@ -581,7 +588,7 @@ def tf_cases(tier, seed):
                 for source in ("sync", "cold"):
                     yield {"part": "to_future", "api": api, "ctor": ctor, "source": source, "seq": seq, "seed": seed}
         yield {"part": "await", "seq": seq, "seed": seed}
-        for sched in ("immediate", "current-thread", "default-sim-lazy", "new-thread-sim-lazy", "new-thread-sim-eager"):
+        for sched in ("immediate", "current-thread", "default-sim", "new-thread-sim"):
             yield {"part": "run", "sched": sched, "seq": seq, "seed": seed}
 
 
@@ -701,7 +708,7 @@ def cb_judge(case):
 
     err = FErr("mapper failed")
     cb_args = tuple(case["cb_args"])
-    second_args = cb_args + ("again",)
+    second_args = tuple(("again", a) for a in cb_args)  # same arity, other values
     received = []  # what func was called with (minus the callback)
     stored = []
     raised_into_caller = []
@@ -748,9 +755,18 @@ def cb_judge(case):
                 call(stored.pop(0), cb_args)
     problems = []
     nargs = "nargs=0" if not cb_args else "nargs>=1"
+    cfg = {"none": f"no-mapper|{nargs}", "tag": "mapper", "returns-none": "mapper", "raises": "mapper-raises"}[case["mapper"]]
     for k, r in enumerate(recs):
-        base = f"from_callback|{'mapper=' + case['mapper']}|{nargs}" if k == 0 else f"from_callback|resubscribe|mapper={case['mapper']}|{nargs}"
         act = r.log
+        if k > 0:
+            # a further subscription is an independent execution: it must observe what the first one observed
+            # (the first one is judged against the contract; this keeps one defect = one signature)
+            first = [(kk, nv(v)) for (_, kk, v) in recs[0].log]
+            this = [(kk, nv(v)) for (_, kk, v) in act]
+            if first != this:
+                problems.append((f"from_callback|resubscribe|differs-from-first-subscription", f"subscription {k} observed {show_log(act)}, the first one {show_log(recs[0].log)}"))
+            continue
+        base = f"from_callback|{cfg}"
         sym = text = None
         if case["mapper"] == "raises":
             if len(act) < 1 or act[0][1] != "E":
@@ -781,11 +797,11 @@ def cb_judge(case):
                 elif len(act) > 2:
                     sym, text = "unexpected-after-completion", "notification after completion"
         if sym:
-            problems.append((f"{base}|{sym}", f"subscription {k}: {text}; observed {show_log(act)}; raised into the callback's caller: {raised_into_caller!r}; func received {received!r}"))
+            problems.append((f"{base}|{sym}", f"subscription {k}: {text}; observed {show_log(act)}; raised into the callback's caller: {raised_into_caller!r}"))
     if not problems and raised_into_caller:
-        problems.append((f"from_callback|mapper={case['mapper']}|{nargs}|raises-into-caller", f"the callback raised {raised_into_caller[0]!r} into its caller"))
+        problems.append((f"from_callback|{cfg}|raises-into-caller", f"the callback raised {raised_into_caller[0]!r} into its caller"))
     if not problems and sub_errors:
-        problems.append((f"from_callback|mapper={case['mapper']}|subscribe-raises", f"subscribe raised {sub_errors[0][1]!r}"))
+        problems.append((f"from_callback|{cfg}|subscribe-raises", f"subscribe raised {sub_errors[0][1]!r}"))
     for k, got in enumerate(received):
         if got != tuple(case["fwd"]):
             where = "forwarded-arguments" if k == 0 else "resubscribe|forwarded-arguments"
@@ -831,19 +847,22 @@ def shard(part: core.Part, shard_i, nshards, tier, seed, deadline):
 def run(ctx: core.Ctx):
     q = ctx.tier == "quick"
     ctx.bounds = {
-        "from_future_history_depth": {"sync/drain": 4 if q else 5, "manual-step": 5 if q else 6, "start_async (quick)": "one less"},
+        "from_future_history_depth": {"sync/drain": ff_bounds(ctx.tier)[1], "manual-step": ff_bounds(ctx.tier)[2]},
         "future_kinds": ["concurrent.futures.Future", "asyncio.Future (manual step)", "asyncio.Future (drained)", "asyncio.Task (drained)"],
-        "max_observers": 2,
+        "max_observers": ff_bounds(ctx.tier)[0],
+        "result_values": ff_bounds(ctx.tier)[3],
         "sequences": list(sequences(ctx.seed)),
         "to_future": "2 apis x 3 constructors x {sync, virtual-time cold}",
-        "run_schedulers": ["immediate", "current-thread", "default (simulated thread, lazy)", "NewThreadScheduler (simulated, lazy/eager)"],
+        "run_schedulers": ["immediate", "current-thread", "default (NewThreadScheduler with simulated threads)", "explicit NewThreadScheduler (simulated threads)"],
         "start_to_async": "3 function outcomes x arity 0..3 x created outside/inside the scheduler run x 4 subscription patterns" + ("" if q else " x 1..2 invocations"),
         "from_callback": "callback arity 0..3" + ("" if q else " (+nested/falsy/4)") + " x mapper {none, tag, raises" + ("" if q else ", returns-none") + "} x {inside-func, after-subscribe, twice} x forwarded args x 1..2 subscriptions",
     }
     ctx.assumptions = [
         "asyncio/concurrent.futures behave as documented (callbacks via call_soon / synchronously)",
-        "run(): real threads are replaced by simulated ones that run when the caller blocks (lazy) or at start() (eager); preemptive interleavings of run() belong to the thread-interleaving engine",
+        "run(): real threads are replaced by simulated ones whose body runs when the caller blocks on the latch; preemptive interleavings of run() belong to the thread-interleaving engine",
     ]
+    # quick is < 1 s of work, thorough ~10 s: a wide fork pool costs more than it saves on a busy machine
+    ctx.workers = 1 if q else min(ctx.workers, 4)
     part = ctx.sharded(shard)
     ctx.cov["cases_per_family"] = {k[5:]: v for k, v in sorted(part.counters.items()) if k.startswith("part:")}
 
